@@ -33,6 +33,8 @@ type Property struct {
 	// After runs extra (non-VC) parts of the check, e.g. bounded islands.
 	After func(P *Prog, rep *Report, tier string)
 	Notes []string
+	// Lemmas: regexps over "<pkg>.<lemma name>" of pure lemmas belonging to the property.
+	Lemmas []string
 	// Assumptions listed in the evidence.
 	Assumptions []string
 	Pkgs        []string
@@ -246,6 +248,33 @@ func runProperty(prop *Property, repo, tier string, seed int, rebase, verbose bo
 		for _, o := range res.Obls {
 			o.Claimed = prop.Claim == nil || prop.Claim(o)
 			all = append(all, o)
+		}
+	}
+	// pure lemmas
+	for _, pat := range prop.Lemmas {
+		re := regexp.MustCompile(pat)
+		found := false
+		for _, l := range P.db.Lemmas {
+			if !re.MatchString(l.Pkg + "." + l.Name) {
+				continue
+			}
+			found = true
+			func() {
+				defer func() {
+					if r := recover(); r != nil {
+						rep.Outside = append(rep.Outside, fmt.Sprintf("lemma %s: %v", l.Name, r))
+					}
+				}()
+				_, obls := P.lemmaObligations(l, l.Pkg)
+				for _, o := range obls {
+					o.Claimed = true
+					all = append(all, o)
+				}
+				rep.FuncsUnder = append(rep.FuncsUnder, "lemma "+l.Pkg+"."+l.Name)
+			}()
+		}
+		if !found {
+			rep.failClosed("contract target missing", "no lemma matches "+pat)
 		}
 	}
 	// phase 3: solve (claimed obligations and auto-invariant support obligations)
